@@ -140,6 +140,21 @@ fn emit<T: Enc>(tag: i32, v: T) -> T {
 fn runtime() -> Runtime<NoCtx> {
     let lib = library! {
         #[clone] type Tr = Val<Tr24>;
+        // registered constants: same identifier in different modules and at the root (mirrored by GCONSTS in lib/rotoast.py)
+        const LIMIT: u32 = 10;
+        const FLAG: bool = true;
+        mod lo {
+            const LIMIT: u32 = 11;
+            const BIAS: i64 = -5;
+            const FLAG: bool = false;
+        }
+        mod hi {
+            const LIMIT: u32 = 12;
+            const BIAS: i64 = 7;
+            mod er {
+                const LIMIT: u32 = 13;
+            }
+        }
         fn emit_i8(tag: i32, v: i8) -> i8 { emit(tag, v) }
         fn emit_u8(tag: i32, v: u8) -> u8 { emit(tag, v) }
         fn emit_i16(tag: i32, v: i16) -> i16 { emit(tag, v) }
